@@ -1,0 +1,24 @@
+//go:build verif
+
+package s3db
+
+import "time"
+
+// VerifNow lets a harness substitute a logical clock for time.Now() (build
+// tag "verif"). It is inert until a harness installs a callback.
+var VerifNow func() (time.Time, bool)
+
+func verifNow() (time.Time, bool) {
+	if VerifNow == nil {
+		return time.Time{}, false
+	}
+	return VerifNow()
+}
+
+// VerifNowOr returns the harness clock if one is installed, else t.
+func VerifNowOr(t time.Time) time.Time {
+	if n, ok := verifNow(); ok {
+		return n
+	}
+	return t
+}
